@@ -26,14 +26,28 @@ var solvers = []solverSpec{
 	{"z3-4.8.12", func(f string, t int) []string { return []string{"z3", fmt.Sprintf("-T:%d", t), f} }},
 }
 
-var unsafeName = regexp.MustCompile(`[^A-Za-z0-9_.@=#-]+`)
+var unsafeName = regexp.MustCompile(`[^A-Za-z0-9_.@#-]+`) // no '=': z3 reads an argument containing one as a parameter setting
 
+var (
+	oblFileMu  sync.Mutex
+	oblFileSeq int
+)
+
+// oblFile: the query file of an obligation; unique per obligation (two obligations may have the same
+// sanitised name, and files of discharged obligations are deleted while others are still being solved).
 func oblFile(dir string, o *Obligation) string {
-	n := unsafeName.ReplaceAllString(o.Name, "_")
-	if len(n) > 180 {
-		n = n[:180]
+	oblFileMu.Lock()
+	defer oblFileMu.Unlock()
+	if o.file != "" && filepath.Dir(o.file) == filepath.Clean(dir) {
+		return o.file
 	}
-	return filepath.Join(dir, n+".smt2")
+	n := unsafeName.ReplaceAllString(o.Name, "_")
+	if len(n) > 170 {
+		n = n[:170]
+	}
+	oblFileSeq++
+	o.file = filepath.Join(dir, fmt.Sprintf("%s.%d.smt2", n, oblFileSeq))
+	return o.file
 }
 
 func runSolver(s solverSpec, file string, timeout int) (status string, out string, secs float64) {
